@@ -180,4 +180,26 @@ PROPS = {
             sub("relations", "c03_cov", 5000, 150000),
             sub("psd", "c03_cov", 4000, 100000),
         ]),
+    "C19": dict(
+        level="fault_enumeration",
+        rule=("31 calculators (kriging family, krigtest, xvalid, test_neigh, simtub/simbayes/simfft, migrate*, statistics on grid, regression, anamorphosis "
+              "transforms, interpolators, image/grid-to-grid tools, PCA) x rapidcheck-generated valid small inputs x prior contents of dbin/dbout (extra columns, "
+              "roles, selections, names colliding with the outputs) x failure mode: success, 26 natural invalid-argument modes, and injected faults: the "
+              "un-faulted run counts the passages of every hook stage (after _check/_preprocess/_run/_postprocess, each _addVariableDb, each kriging target) "
+              "and EVERY (stage,k) is then armed in turn on fresh copies (exhaustive per case). Oracle: full snapshots (class, nech, ncol, names, uid of each "
+              "column, role of each column, every cell bit pattern, grid geometry, Model/Neigh serialisation) before/after: identical after a reported "
+              "failure; after success dbin identical and dbout = old columns + exactly the documented new variables; after a failure the objects are reused "
+              "and must answer as fresh ones. non-trivial = the calculator creates >=1 variable and (success) dbout holds extra/colliding columns, or (natural) "
+              "the invalid argument is detected after a variable was created, or (inject) >=1 injected fault fired; distinct = hash of the case text"),
+        assumptions=["output names follow NamingConvention (prefix.varname.qualifier.rank); a pre-existing name makes the new variable '<name>.1'",
+                     "on success the locator type given to the outputs may be withdrawn from pre-existing columns of dbout (documented cleanSameLocator)",
+                     "the size of the UID table is not part of the state; the UID of each live column is",
+                     "krigtest documents no output variable: both Dbs identical after any krigtest call",
+                     "a fault fired by a hook is a failure the call has to report",
+                     "generator restrictions forced by defects outside C19: isotropic coefficients in NeighMoving, no NA/selection in dbin for kribayes/simbayes, simfft in 2-3 D only"],
+        subs=[
+            sub("success", "c19_atomic", 4000, 60000),
+            sub("natural", "c19_atomic", 3000, 40000),
+            sub("inject", "c19_atomic", 800, 30000, qw=4, tw=8),
+        ]),
 }
